@@ -76,6 +76,8 @@ def gen_program(r, maxsteps=9, maxh=6, read_bias=0.2, assign_bias=0.2):
     k = 10
     rows = []
     flt = r.random() < 0.25                      # a float64 array: small dyadic values and now and then +inf
+    if flt and r.random() < 0.5:
+        lens = [max(l, 1) for l in lens] or [2, 1]   # no empty rows: the shortcuts for such shapes
     for l in lens:
         rows.append([([2 * (k + j) + 1, 2] if not (flt and r.random() < 0.08) else [1, 0]) if flt else k + j for j in range(l)])
         k += l
@@ -88,12 +90,16 @@ def gen_program(r, maxsteps=9, maxh=6, read_bias=0.2, assign_bias=0.2):
     rec.append({"res": res, "obs": [exec_heap.shadow(x) for x in objs]})
     nsteps = r.randint(2, maxsteps)
     val = 100
+    focus = None
     for _ in range(nsteps):
         obs = rec[-1]["obs"]
         live = [i for i, ob in enumerate(obs, 1) if ob[0] != "raised"]
         if not live:
             break
         h = r.choice(live)
+        if focus in live and r.random() < 0.6:         # what was just looked at is what is used next
+            h = focus
+        focus = None
         hl = _lens(obs[h - 1])
         hdt = obs[h - 1][0]                           # values are written in the target's own dtype
         V = (lambda x: [x, 1]) if hdt[0] == "f" else (lambda x: x % 2) if hdt == "b1" else (lambda x: x)
@@ -129,14 +135,18 @@ def gen_program(r, maxsteps=9, maxh=6, read_bias=0.2, assign_bias=0.2):
             rs, cs = rnd_sel(r, hl)
             st = ["select", h, rs, cs]
         elif c < 0.91:
-            f = r.choice(["add_py", "add_self", "mul_py", "neg", "sub_h", "col", "col"])
+            f = r.choice(["add_py", "add_self", "mul_py", "neg", "sub_h", "col", "col"] + (["col"] * 6 if flt else []))
             if f == "col" and not hl:
                 f = "neg"
             if f == "col":
                 col = [V(r.randint(-3, 9)) for _ in hl]
                 if flt and r.random() < 0.5:
                     col[r.randrange(len(col))] = [1, 0]
+                    if r.random() < 0.5:
+                        col[0] = [r.choice([1, -1]), 0]
                 opd = ["col", hdt if hdt != "b1" else "i8", col if hdt != "b1" else [r.randint(0, 3) for _ in hl]]
+                if hdt[0] == "i" and r.random() < 0.3:                 # an integer array and a float column with an infinity
+                    opd = ["col", "f8", [[1, 0] if i == 0 or r.random() < 0.2 else [r.randint(-3, 9), 1] for i in range(len(hl))]]
                 st = ["ufunc", r.choice(["add", "maximum", "less"]), ["h", h], opd] if r.random() < 0.5 else ["ufunc", r.choice(["add", "subtract"]), opd, ["h", h]]
             elif f == "add_py":
                 st = ["ufunc", "add", ["h", h], ["py", "pyint", r.randint(1, 3)]]
@@ -150,7 +160,7 @@ def gen_program(r, maxsteps=9, maxh=6, read_bias=0.2, assign_bias=0.2):
                 g = r.choice(live)
                 st = ["ufunc", "subtract", ["h", h], ["h", g]]
         else:
-            name = r.choice(["cumsum", "sort", "diff", "concat", "concat", "astype", "sum", "max", "argmax", "argmin", "mean", "min", "unique_obs", "unique_obs"])   # no value-dependent shapes (unique): see RaggedHeap.tla
+            name = r.choice(["cumsum", "sort", "diff", "concat", "concat", "astype", "sum", "max", "argmax", "argmin", "mean", "min", "unique_obs", "unique_obs", "nonzero_obs", "nonzero_obs", "colsum_obs", "pad_obs"])   # no value-dependent shapes (unique): see RaggedHeap.tla
             if name == "concat":
                 g = r.choice(live)
                 ax = r.choice([0, 0, -1])
@@ -163,6 +173,8 @@ def gen_program(r, maxsteps=9, maxh=6, read_bias=0.2, assign_bias=0.2):
                 st = ["func", "sort", h, 0]          # cumsum is integer-only
             else:
                 st = ["func", name, h, 0]
+        if st[0] == "read" or (st[0] == "func" and st[1] in ("sum", "max", "min", "mean", "argmax", "argmin", "unique_obs", "nonzero_obs", "colsum_obs", "pad_obs")):
+            focus = h
         res = exec_heap.step(objs, st, opts)
         steps.append(st)
         rec.append({"res": res, "obs": [exec_heap.shadow(x) for x in objs]})
